@@ -778,6 +778,40 @@ func (env *SpecEnv) call(x *SExpr) Value {
 			env.state().assume(mkForall([]*Term{k}, mkAnd(mkLe(mkBig(lo), mkSelect(arrT, k)), mkLe(mkSelect(arrT, k), mkBig(hi))), mkSelect(arrT, k)))
 		}
 		return SpecTerm{arrT}
+	case "leaf":
+		// leaf(s, f.g): one scalar component of the elements of slice s, as an array over absolute indices
+		// (the part of the memory a sum or count over the elements depends on, made an explicit argument)
+		if len(x.Args) != 2 {
+			env.fail(x, "leaf(slice, field path)")
+		}
+		sv, ok := toSlice(env.eval(x.Args[0]))
+		if !ok {
+			env.fail(x, "leaf(slice, field path)")
+		}
+		et := sv.Typ.Underlying().(*types.Slice).Elem()
+		var pathOf func(a *SExpr) string
+		pathOf = func(a *SExpr) string {
+			switch a.Kind {
+			case "str":
+				return "." + a.Str
+			case "ident":
+				return "." + a.Name
+			case "field":
+				return pathOf(a.Args[0]) + "." + a.Name
+			}
+			env.fail(x, "leaf(): the second operand is a field path")
+			return ""
+		}
+		want := pathOf(x.Args[1])
+		var ls []leaf
+		leavesOf(et, "", &ls)
+		for _, lf := range ls {
+			if lf.Path == want {
+				return SpecTerm{mkSelect(env.state().memMap(memFamily(et)+lf.Path, lf.Sort), sv.Arr)}
+			}
+		}
+		env.fail(x, "leaf(): no scalar component "+want+" in "+et.String())
+		return nil
 	case "base":
 		sv, ok := toSlice(env.eval(x.Args[0]))
 		if !ok {
